@@ -789,3 +789,23 @@ Qed.
 Fixpoint nodupb (l : list Z) : bool := match l with [] => true | x :: r => negb (memZ x r) && nodupb r end.
 Definition refine_hyps_ok (t : rtopo) : bool :=
   nodupb (map re_id (rt_edges t)) && match tree_of_topo t with Some tr => nodupb (leaves tr) | None => false end.
+
+Lemma nodupb_NoDup l : nodupb l = true -> NoDup l.
+Proof.
+  induction l as [|x r IH]; cbn [nodupb]; intros H; [constructor|].
+  apply andb_prop in H. destruct H as [H1 H2]. constructor; [|now apply IH].
+  intros Hin. apply negb_true_iff in H1.
+  assert (E : PyTopo.memZ x r = true).
+  { unfold PyTopo.memZ. apply existsb_exists. exists x. split; [exact Hin|apply Z.eqb_refl]. }
+  unfold PyTopo.memZ, Spin.memZ in *. congruence.
+Qed.
+
+(** the hypotheses of the refinement are decidable: for a concrete topology the agreement follows by evaluating a boolean *)
+Theorem gen_refinement_by_computation t : refine_hyps_ok t = true ->
+  exists tr, tree_of_topo t = Some tr /\ tree_agrees t tr.
+Proof.
+  unfold refine_hyps_ok. intros H. apply andb_prop in H. destruct H as [H1 H2].
+  destruct (tree_of_topo t) as [tr|] eqn:E; [|discriminate].
+  exists tr. split; [reflexivity|].
+  apply gen_helpers_refine_Kin; [exact (nodupb_NoDup _ H1)|exact E|exact (nodupb_NoDup _ H2)].
+Qed.
